@@ -23,7 +23,8 @@ func init() {
 			"R5 every store of a wrapper into Chain.Writer is followed on every path by a deferred restore of the captured original (or returns the restore to a caller that defers it at once); " +
 			"R6 BeginWire/TryPack hand out three-index slices with the capacity pinned (BeginWire behind cap(lease) >= need); " +
 			"R7 in groupLookup the shared singleflight result is mutated (resp.Id) only after Copy() or on the non-shared edge, and the leader closure receives req.Copy() unless owned; " +
-			"R8 no direct store of a Request.Raw()/WireName() view into a struct field, global or map outside Request.",
+			"R8 no direct store of a Request.Raw()/WireName() view into a struct field, global or map outside Request; " +
+			"R9 framed staging is whole: every write into tcpStream.drain at offset held (frame prefix, payload copy) is dominated on every path by integer guards implying held + bytes written <= len(drain) (held tracked through its stores; flush re-bases it to 0 only because each of its nil-error returns has held == 0), and flush writes exactly drain[:held].",
 		NotDecided: []string{
 			"interleavings: which release/reuse/send order the scheduler produces",
 			"pipelining order of replies on a stream connection",
@@ -44,6 +45,7 @@ func runC10(c *Ctx) {
 	c10R1(c)
 	c10R3(c)
 	c10R8(c)
+	c10R9(c)
 }
 
 // ---------------------------------------------------------------------------
@@ -924,27 +926,49 @@ func c10R3(c *Ctx) {
 	for _, fn := range c.P.FuncsInPkg(pkg) {
 		for _, in := range instrsWhere(fn, func(in ssa.Instruction) bool { return in.Parent() == fn && isCallTo(wm)(in) }) {
 			key := fmt.Sprintf("%s|%s|WriteMsgUDPAddrPort", rule, fnKey(fn))
-			job, ok := baseOf(Desc(callArg(in, 0)), pcF)
-			if !ok {
-				c.violation(rule, key, instrPos(in), "send socket is not the job's own pc field")
-				continue
-			}
+			// every leaf producer of each operand (through locals, phis, merged
+			// branches and small helpers) must be a field of one and the same job
+			job := ""
 			var probs []string
-			if b, ok := baseOf(Desc(callArg(in, 3)), raddrF); !ok || b != job {
-				probs = append(probs, "destination is not the raddr of the job that owns the socket")
+			same := func(b string) bool {
+				if job == "" {
+					job = b
+				}
+				return b == job
 			}
-			oob := Desc(callArg(in, 2))
-			if !IsNilConst(oob) {
-				if b, ok := sliceOf(oob, pktF, pktLenF); !ok || b != job {
-					probs = append(probs, "control data is not pktinfo[:pktinfoLen] of the same job")
+			eachLeaf := func(v ssa.Value, what string, okLeaf func(l c10Leaf) bool) {
+				ls := c10ValueLeaves(Desc(v), 0)
+				if len(ls) == 0 {
+					probs = append(probs, what+": origin could not be determined")
+				}
+				for _, l := range ls {
+					if !okLeaf(l) {
+						probs = append(probs, what+" may be "+trunc(l.E.String(), 80))
+					}
 				}
 			}
-			pl := strip(Desc(callArg(in, 1)))
-			if pl.K != EParam {
-				if b, ok := sliceOf(pl, txF, txLenF); !ok || b != job {
-					probs = append(probs, "payload is neither the Write argument nor tx[:txLen] of the same job")
+			eachLeaf(callArg(in, 0), "send socket is not the job's own pc:", func(l c10Leaf) bool {
+				b, ok := baseOf(l.E, pcF)
+				return ok && same(l.Base(b))
+			})
+			eachLeaf(callArg(in, 3), "destination is not the raddr of the job that owns the socket:", func(l c10Leaf) bool {
+				b, ok := baseOf(l.E, raddrF)
+				return ok && same(l.Base(b))
+			})
+			eachLeaf(callArg(in, 2), "control data is neither nil nor pktinfo[:pktinfoLen] of the same job:", func(l c10Leaf) bool {
+				if IsNilConst(l.E) {
+					return true
 				}
-			}
+				b, ok := sliceOf(l.E, pktF, pktLenF)
+				return ok && same(l.Base(b))
+			})
+			eachLeaf(callArg(in, 1), "payload is neither the Write argument nor tx[:txLen] of the same job:", func(l c10Leaf) bool {
+				if l.E.K == EParam && in.Parent().Signature.Recv() != nil && methodOn(funcObjOf(in.Parent()), "udpJob") {
+					return true // the transport's own Write(b): the caller's bytes for this job
+				}
+				b, ok := sliceOf(l.E, txF, txLenF)
+				return ok && same(l.Base(b))
+			})
 			if len(probs) > 0 {
 				c.violation(rule, key, instrPos(in), strings.Join(probs, "; ")+" — a reply could leave for another client's address or with another reply's bytes")
 			} else {
@@ -1040,7 +1064,9 @@ func c10R3(c *Ctx) {
 			c.violation(rule, rule+"|sendGroup|one job per message", sg.Pos(), "sendmmsg descriptor mixes fields of different jobs: "+strings.Join(js, " , "))
 		}
 		c.MustCross(rule, sg, "batched arm", func(in ssa.Instruction) bool { _, ok := isUnixField(in, "Msghdr", "Name"); return ok },
-			OnCmp("rawSALen == 0", FieldIs(rawLenF), token.EQL, IsConstInt(0), false))
+			OnCmp("rawSALen == 0", FieldIs(rawLenF), token.EQL, IsConstInt(0), false),
+			OnCmp("rawSALen == 0", FieldIs(rawLenF), token.GTR, IsConstInt(0), true),
+			OnCmp("rawSALen == 0", FieldIs(rawLenF), token.GEQ, IsConstInt(1), true))
 	} else {
 		c.c10Absent(rule, "udpEngine.sendGroup (sendmmsg path)")
 	}
